@@ -98,7 +98,18 @@ def projectOracles (p : Project) (cfg : Gn.Config) (a : Analysis) (implFiles : J
           else none
         | _ => none
       let names := consts.map (·.1)
-      let ok := (consts.zipIdx).all fun (c, i) => c.2.all fun r => (names.take i).contains r
+      -- a schema may be read before its definition only by a schema it (transitively) reads itself: the two are then on a
+      -- common cycle, where no order exists (the statement asks for the order "whenever the type dependency graph is
+      -- acyclic"; on cyclic graphs the pairs off every cycle are still checked)
+      let refsOf (n : Str) : List Str := ((consts.find? fun c => c.1 = n).map (·.2)).getD []
+      let rec reach (fuel : Nat) (acc : List Str) : List Str :=
+        match fuel with
+        | 0 => acc
+        | f + 1 =>
+          let next := acc.foldl (fun a x => (refsOf x).foldl (fun a y => if a.contains y then a else a ++ [y]) a) acc
+          if next.length = acc.length then acc else reach f next
+      let ok := (consts.zipIdx).all fun (c, i) => c.2.all fun r =>
+        (names.take i).contains r || (reach (consts.length + 1) [r]).contains c.1
       [("c09_defined_before_use", ok)]
   -- C02: closed modules, no duplicate exports, index re-exports exactly the written files
   let c02 : List (String × Bool) :=
